@@ -229,6 +229,19 @@ func (g *sliceGen) step() {
 			g.steps["nil"]++
 			return
 		case 9: // range
+			if !sa.isNil && sa.len >= 2 && rng.Intn(2) == 0 {
+				// the body writes to an element the loop has not reached yet (seen by the loop), appends to the ranged
+				// variable (not seen: the length is fixed when the loop starts) and assigns to the value variable (no effect)
+				g.line("for k, v := range %s {", a)
+				g.line("\tif k == 0 {")
+				g.line("\t\t%s[%d] = %s", a, sa.len-1, g.input())
+				g.line("\t}")
+				g.line("\tv += 1000")
+				g.line("\tfmt.Println(\"rw\", k, v)")
+				g.line("}")
+				g.steps["range-writes-ahead"]++
+				return
+			}
 			g.line("for k, v := range %s {", a)
 			g.line("\tfmt.Println(\"r\", k, v)")
 			g.line("}")
